@@ -18,7 +18,7 @@ func validateMaps(env *Environment, errorSink *validation.ErrorSink) *Environmen
 		t := GetUnderlyingType(m.KeyType)
 		if st, ok := t.(*SimpleType); ok {
 			switch st.ResolvedDefinition.(type) {
-			case nil, PrimitiveDefinition:
+			case nil, PrimitiveDefinition, *GenericTypeParameter:
 				return
 			}
 		}
